@@ -801,6 +801,12 @@ impl World {
         None
     }
 
+    /// evaluate a type expression that refers to no declaration (scalar mapping texts)
+    pub fn eval_in_empty(&self, te: &Te) -> R<T> {
+        let mut w = World::new();
+        w.scopes.push(Scope::default());
+        w.eval(0, te, &Rc::new(BTreeMap::new()), 0)
+    }
     pub fn eval_in(&self, scope: usize, te: &Te) -> R<T> {
         self.eval(scope, te, &Rc::new(BTreeMap::new()), 0)
     }
